@@ -142,3 +142,110 @@ Definition ph_misc (_ : snap) (ph : phase) : bool := s_misc_ok (p_post ph).
 Definition diffs (l : list scase) := bad_idx diff_case l.
 Definition mons (l : list scase) :=
   mon_idx [mon_of ph_totals; mon_of ph_means; mon_of ph_gauges; mon_of ph_mean_consistent; mon_of ph_norace; mon_of ph_misc] l.
+
+(* ================================================================ real stage workers *)
+Record gread := GR { gr_get : list N; gr_tui : list N; gr_prom : list N }.   (* pre, arch, post, fin *)
+Record gcase := GC {
+  g_n : N;                              (* config.WorkersCount *)
+  g_started : list cid; g_stops : list cid;
+  g_ok : bool;                          (* the child ran to the end *)
+  g_reached : bool;                     (* ... and saw every started stage report n workers *)
+  g_burst : list (list (op * N));       (* calls made by other goroutines while the workers are live *)
+  g_classes : list (N * N);             (* key id -> first digit 2..5 of the key, else 0 *)
+  g_urls : N; g_seeds : N; g_keys : list (N * N);
+  g_promtot : list N;                   (* /metrics: url_crawled, finished_seeds, http_2xx .. http_5xx *)
+  g_live : gread; g_steps : list gread; g_raced : bool }.
+
+Definition stages3 : list cid := [CPre; CArch; CPost].
+Definition memc (l : list cid) (c : cid) : bool := existsb (cid_eqb c) l.
+Definition Lb (i : nat) : label := (i, []).
+
+(* ---- correspondence: the transition system itself is run on the case.
+   goroutines: n workers per started stage (idle body), then the burst goroutines *)
+Definition op_steps (o : op) : N :=
+  match o with
+  | ORateIncr (RKey _) _ | OCntIncr _ _ | OCntDecr _ _ | OMeanAdd _ _ | OMeanGet _ | OCntGet _ => 1
+  | ORateIncr _ _ => 2
+  | OTui _ _ _ _ => 40
+  | _ => 8
+  end.
+Definition script_steps (segs : list (op * N)) : N :=
+  fold_right (fun on a => op_steps (fst on) * snd on + a) 1 segs.
+Definition gthreads (c : gcase) : list prog :=
+  flat_map (fun s => if memc (g_started c) s then repeat (worker s []) (N.to_nat (g_n c)) else []) stages3
+  ++ map (fun segs => compile (expand segs)) (g_burst c).
+Definition nworkers (c : gcase) : nat :=
+  length (flat_map (fun s => if memc (g_started c) s then repeat tt (N.to_nat (g_n c)) else []) stages3).
+(* index of the first worker of stage s *)
+Definition stage_off (c : gcase) (s : cid) : nat :=
+  length (flat_map (fun s' => if memc (g_started c) s' then repeat tt (N.to_nat (g_n c)) else [])
+            (match s with CPre => [] | CArch => [CPre] | _ => [CPre; CArch] end)).
+Definition sched_start (c : gcase) : list label := map Lb (List.seq 0 (nworkers c)).
+Definition sched_burst (c : gcase) : list label :=
+  let ids := List.seq (nworkers c) (length (g_burst c)) in
+  let rounds := fold_right N.max 0 (map script_steps (g_burst c)) in
+  N.iter rounds (fun acc => map Lb ids ++ acc) [].
+Definition sched_stop (c : gcase) (s : cid) : list label :=
+  if memc (g_started c) s then map Lb (List.seq (stage_off c s) (N.to_nat (g_n c))) else [].
+
+Definition gauges_of (m : mem) : list N := map (fun s => get m (LCnt s)) stages3.
+
+
+Fixpoint stops_diff (c : gcase) (cf : cfg) (stops : list cid) (obs : list gread) : bool :=
+  match stops, obs with
+  | s :: stops', o :: obs' =>
+      let cf' := run cf (sched_stop c s) in
+      negb (listN_eqb (gauges_of (c_mem cf')) (firstn 3 (gr_get o))) || stops_diff c cf' stops' obs'
+  | [], [] => false
+  | _, _ => true
+  end.
+
+Definition gdiff_case (c : gcase) : bool :=
+  if negb (g_ok c && g_reached c) then true else
+  let cf1 := run (start (gthreads c) []) (sched_start c) in
+  let cf2 := run cf1 (sched_burst c) in
+  let m := c_mem cf2 in
+  negb (forallb is_ret (skipn (nworkers c) (c_threads cf2)))       (* the burst ran to completion *)
+  || negb (listN_eqb (gauges_of m) (firstn 3 (gr_get (g_live c))))
+  || negb (get m (LTotal RUrls) =? g_urls c) || negb (get m (LTotal RSeeds) =? g_seeds c)
+  || negb (forallb (fun kv => get m (LTotal (RKey (fst kv))) =? snd kv) (g_keys c))
+  || negb (forallb (has_key (g_keys c)) (keys m))
+  || stops_diff c cf2 (g_stops c) (g_steps c)
+  || (let cfend := fold_left (fun cf s => run cf (sched_stop c s)) (g_stops c) cf2 in
+      if forallb (memc (g_stops c)) (g_started c) then negb (finished cfend) else false).
+Definition gdiffs (l : list gcase) := bad_idx gdiff_case l.
+
+(* ---- monitors on the child's readings *)
+Definition expect_gauges (c : gcase) (stopped : list cid) : list N :=
+  map (fun s => if memc (g_started c) s && negb (memc stopped s) then g_n c else 0) stages3.
+Definition read_ok (exp : list N) (r : gread) : bool :=
+  listN_eqb exp (firstn 3 (gr_get r)) && listN_eqb exp (firstn 3 (gr_tui r))
+  && (match gr_prom r with [] => true | p => listN_eqb exp (firstn 3 p) end).
+
+(* 0: with the workers up (and other goroutines hammering the package) every gauge = live workers *)
+Definition gmon_live (c : gcase) : bool := g_ok c && g_reached c && read_ok (expect_gauges c []) (g_live c).
+(* 1: after each Stop the stopped stages read 0 and the others are unchanged; all 0 at the end *)
+Fixpoint steps_ok (c : gcase) (stopped : list cid) (stops : list cid) (obs : list gread) : bool :=
+  match stops, obs with
+  | s :: stops', o :: obs' => read_ok (expect_gauges c (s :: stopped)) o && steps_ok c (s :: stopped) stops' obs'
+  | [], [] => true
+  | _, _ => false
+  end.
+Definition gmon_stop (c : gcase) : bool := g_ok c && steps_ok c [] (g_stops c) (g_steps c).
+(* 2: totals after the burst = number of events, on every reporting path *)
+Definition class_sum (c : gcase) (cl : N) : N :=
+  fold_right (fun kc a => if snd kc =? cl then sigma_segs (LTotal (RKey (fst kc))) (concat (g_burst c)) + a else a) 0 (g_classes c).
+Definition gmon_totals (c : gcase) : bool :=
+  let segs := concat (g_burst c) in
+  g_ok c
+  && (g_urls c =? sigma_segs (LTotal RUrls) segs) && (g_seeds c =? sigma_segs (LTotal RSeeds) segs)
+  && forallb (fun k => key_total (g_keys c) k =? sigma_segs (LTotal (RKey k)) segs)
+             (map fst (g_keys c) ++ incremented_keys segs)
+  && forallb (has_key (g_keys c)) (incremented_keys segs)
+  && (match g_promtot c with
+      | [] => true
+      | p => listN_eqb p [sigma_segs (LTotal RUrls) segs; sigma_segs (LTotal RSeeds) segs;
+                          class_sum c 2; class_sum c 3; class_sum c 4; class_sum c 5]
+      end).
+Definition gmon_norace (c : gcase) : bool := negb (g_raced c).
+Definition gmons (l : list gcase) := mon_idx [gmon_live; gmon_stop; gmon_totals; gmon_norace] l.
